@@ -138,6 +138,28 @@ def htmlEnd (r : Str) : Bool :=
 /-- `/?$` with the slash present -/
 def slashEnd (r : Str) : Bool := match r with | '/' :: e => atDollar e | _ => false
 
+theorem ampEnd_eq (r : Str) :
+    ampEnd r = if slashEnd r then some (r.drop 1) else if atDollar r then some r else none := by
+  cases r with
+  | nil => simp [ampEnd, afterChar, slashEnd]
+  | cons c e =>
+    by_cases h : c = '/'
+    · subst h
+      simp only [ampEnd, afterChar, if_true, slashEnd, List.drop_succ_cons, List.drop_zero]
+    · have hs : slashEnd (c :: e) = false := by
+        unfold slashEnd
+        split
+        · rename_i e' heq
+          simp only [List.cons.injEq] at heq
+          exact absurd heq.1 h
+        · rfl
+      simp [ampEnd, afterChar, h, hs]
+
+theorem htmlEnd_eq (r : Str) :
+    ((matchLit ".html".toList r).map atDollar).getD false = htmlEnd r := by
+  unfold htmlEnd
+  cases matchLit ".html".toList r <;> rfl
+
 theorem ampSuffixHere_eq (b : Bool) (s : Str) :
     ampSuffixHere b s =
       ((match matchLit ".amp".toList s with
@@ -149,7 +171,9 @@ theorem ampSuffixHere_eq (b : Bool) (s : Str) :
           | none => none
           | some r => if slashEnd r then some (r.drop 1) else if atDollar r then some r else none
         else none)) := by
-  rfl
+  unfold ampSuffixHere
+  simp only [htmlEnd_eq, ampEnd_eq]
+  cases matchLit ".amp".toList s <;> cases matchLit "amp".toList s <;> simp [ampEnd_eq]
 
 /-- the last segment, seen from a string that ends with it -/
 theorem last_segment_unique {a a' b b' : Str} (hb : '/' ∉ b) (hb' : '/' ∉ b')
